@@ -221,7 +221,7 @@ func buildVal(t types.Type, suffix string, leaf leafFn) Val {
 	case KAddr:
 		pt := t.Underlying().(*types.Pointer)
 		ref := leaf(suffix, "Int", t)
-		if structOf(pt.Elem()) != nil {
+		if _, isStruct := pt.Elem().Underlying().(*types.Struct); isStruct {
 			return Val{K: KAddr, T: t, A: &Addr{Kind: AObj, Base: ref, Root: pt.Elem(), T: pt.Elem()}}
 		}
 		if arr, ok := pt.Elem().Underlying().(*types.Array); ok {
